@@ -340,3 +340,13 @@ def attempts_of(gen, log, rec):
                         "first_on_conn": start == 0, "complete": False})
     out.sort(key=lambda a: a["seq"])
     return out
+
+
+def ignored_attempts(gen, log, rec):
+    """How often the client tried to write rec's frame to a transport that was already
+    lost (never reached the wire, but a write failure from the client's point of view)."""
+    if "pid" not in rec or rec["data"] is None:
+        return 0
+    want = R.frame(gen, rec["to"], R.ADDR_CLIENT, rec["pid"], rec["typ"], rec["data"])
+    hdr = want[:R.header_len(gen)]
+    return sum(1 for _, _, k, d in log.events if k == "NET.write_ignored" and d["data"] == hdr)
